@@ -108,6 +108,8 @@ class Emit:
         if tag == "field" and e[2] == "value": return self.expr(e[1], k)          # the wrapper is transparent
         if tag == "struct" and e[1] in ("Self", "Integer") and len(e[2]) == 1 and e[2][0][0] == "value": return self.expr(e[2][0][1], k)
         if tag == "tfield" and e[2] in (0, 1): return self.expr(e[1], lambda t: k("(%s %s)" % ("fst" if e[2] == 0 else "snd", t)))
+        if tag == "tuple":
+            return self.args(e[1], lambda ts: k("(%s)" % ", ".join(ts)))
         if tag == "fncall":
             f, a = e[1], e[2]
             if f in ("Self::from_bigint", "Integer::from_bigint") and len(a) == 1: return self.expr(a[0], k)
@@ -164,6 +166,8 @@ class Emit:
             return self.expr(c, lambda t: "if %s then %s else %s" % (t, self.stmts(then), rest))
         if s[0] == "let" and isinstance(s[1], str):
             return self.expr(s[3], lambda t: "let %s := %s in %s" % (self.var(s[1]), t, self.stmts(ss[1:])))
+        if s[0] == "let_tuple":
+            return self.expr(s[2], lambda t: "let '(%s) := %s in %s" % (", ".join(self.var(n_) for n_ in s[1]), t, self.stmts(ss[1:])))
         raise Untranslatable("statement %s" % s[0])
 
 def params_of(sig, fn):
